@@ -697,6 +697,10 @@ def run(chk, repo):
         generator expression of pairs over the items of a term store, or a loop that stores D[K] = V item by item
         (temporaries of the loop body resolved); powers and coefficients are called k and v"""
         gens = [n for n in ast.walk(fn_) if isinstance(n, ast.GeneratorExp) and isinstance(n.elt, ast.Tuple) and len(n.elt.elts) == 2]
+        dcs = [n for n in ast.walk(fn_) if isinstance(n, ast.DictComp)]
+        if not gens and len(dcs) == 1:
+            # {K: V for k, v in ..}: the same pairs, as a mapping display
+            gens = [ast.GeneratorExp(elt=ast.Tuple(elts=[dcs[0].key, dcs[0].value], ctx=ast.Load()), generators=dcs[0].generators)]
         if len(gens) == 1 and len(gens[0].generators) == 1 and isinstance(gens[0].generators[0].target, ast.Tuple) \
                 and len(gens[0].generators[0].target.elts) == 2:
             g_ = gens[0].generators[0]
